@@ -95,6 +95,7 @@ def main(argv):
 
     nshards = mod.nshards(tier)
     timeout = getattr(mod, "SHARD_TIMEOUT", {"quick": 400, "thorough": 5400})[tier]
+    timeout *= float(os.environ.get("VF_SHARD_TIMEOUT_SCALE", "1"))  # tracing runs (tools/cover.sh)
     outdir = os.path.join(VERIF, ".build", "run", f"{pid}-{os.getpid()}")
     os.makedirs(outdir, exist_ok=True)
     maxpar = int(os.environ.get("VF_JOBS", getattr(mod, "MAX_PARALLEL", 16)))
